@@ -4,9 +4,9 @@
 package main
 
 import (
-	"os"
 	"fmt"
 	"math"
+	"os"
 	"time"
 
 	"github.com/deadsy/sdfx/render"
